@@ -1390,6 +1390,40 @@ def run_corpus(rep, drv, rng):
         run_case(rep, drv, rng, d)
 
 
+def check_huge(rep):
+    """values the interpreter refuses to print (more than 4300 decimal digits): a violation is still refused, an admitted
+    value still accepted, on every construction path"""
+    big = 1 << 20000
+    cases = [
+        ('INTEGER (0..255)', univ.Integer().subtype(subtypeSpec=C.ValueRangeConstraint(0, 255)), [(big, False), (-big, False), (255, True)]),
+        ('INTEGER (0|1|2)', univ.Integer().subtype(subtypeSpec=C.SingleValueConstraint(0, 1, 2)), [(big, False), (2, True)]),
+        ('INTEGER (0..MAX)', univ.Integer().subtype(subtypeSpec=C.ValueRangeConstraint(0, big * 4)), [(big, True), (-big, False), (big * 8, False)]),
+        ('INTEGER (ALL EXCEPT 5)', univ.Integer().subtype(subtypeSpec=C.ConstraintsExclusion(C.SingleValueConstraint(5))),
+         [(big, True), (5, False)]),
+        ('BIT STRING (SIZE 1..64)', univ.BitString().subtype(subtypeSpec=C.ValueSizeConstraint(1, 64)),
+         [(univ.BitString(binValue='10' * 10000), False), (univ.BitString(binValue='10' * 32), True)]),
+    ]
+    for name, ty, items in cases:
+        for v, admitted in items:
+            for path, thunk in [('clone', lambda: ty.clone(v)), ('subtype-value', lambda: ty.subtype(v)),
+                                ('init', lambda: type(ty)(v, subtypeSpec=ty.subtypeSpec))]:
+                rep.evaluations += 1
+                rep.count('huge-values')
+                case = {'kind': 'huge', 'type': name, 'path': path, 'bits': int(v).bit_length() if not isinstance(v, univ.BitString) else len(v)}
+                try:
+                    thunk()
+                    ok = True
+                except error.PyAsn1Error:
+                    ok = False
+                except Exception as ex:  # noqa
+                    rep.fail('construct-leak-%s:huge' % type(ex).__name__, '%s of a %d-bit value raised %s' % (path, case['bits'], type(ex).__name__), case)
+                    continue
+                if ok and not admitted:
+                    rep.fail('scalar-op-bypass:huge:%s' % path, 'constructed a %d-bit value outside %s' % (case['bits'], name), case)
+                if not ok and admitted:
+                    rep.fail('construct-rejects-member:huge:%s' % path, 'a %d-bit value inside %s was refused' % (case['bits'], name), case)
+
+
 def run(rep, tier, seed):
     common.prove(rep)
     rng = common.rng_for(seed, 'C14')
@@ -1411,6 +1445,7 @@ def run(rep, tier, seed):
     run_corpus(rep, drv, rng)
     audit_sources(rep)
     known_finding_probes(rep)
+    check_huge(rep)
     op_constr(rep, drv, rng, 10000 * k, 12)
     op_chain(rep, drv, rng, 1500 * k)
     op_super_pairs(rep, drv, rng, 3000 * k)
